@@ -34,10 +34,18 @@ Print Assumptions C11_no_lost_notify.
    runtime timer) is enabled at the step that makes one ready *)
 Theorem C11_wake_or_helper : forall evs, let s := run evs init in
   rd s = RParked ->
-  ((0 < pend s)%nat \/ ss s <> SOpen \/ sclosing s = true \/ (use_t s = true /\ armed s <= now s)) ->
+  ((0 < pend s)%nat \/ ss s <> SOpen \/ sclosing s = true) ->
   wake_enabled s = true \/ helper_pending s = true.
 Proof. exact wake_or_helper. Qed.
 Print Assumptions C11_wake_or_helper.
+
+(* ... and for the deadline: the timer value is in the call's channel, or the runtime is at the step that
+   puts it there (FireB), or the expiry is enabled (Fire / FireA) *)
+Theorem C11_wake_or_helper_deadline : forall evs, let s := run evs init in
+  rd s = RParked -> use_t s = true -> armed s <= now s ->
+  tch s = true \/ ptick s = true \/ tmr s = Some (armed s).
+Proof. exact wake_or_helper_deadline. Qed.
+Print Assumptions C11_wake_or_helper_deadline.
 
 (* the death of the session releases a parked reader in EVERY stream state (open, closed, half-closed
    by the peer, half-closed by a deferred local Close) *)
@@ -65,18 +73,30 @@ Theorem C11_wake_stable : forall s e, rd s = RParked -> wake_enabled s = true ->
 Proof. exact wake_stable. Qed.
 Print Assumptions C11_wake_stable.
 
-(* the step that produces ErrTimeout is taken only in states whose clock has reached the deadline
-   that SetReadDeadline installed for this call *)
-Theorem C11_timeout_not_early : forall evs e, let s := run evs init in
-  res (step s e) = Some RErrTimeout -> res s <> Some RErrTimeout ->
-  exists d, dl s = Some d /\ d <= now s.
+(* FULL statement of "ErrTimeout is never early": over EVERY schedule, the runtime's two-step timer expiry
+   (FireA: the timer has expired, Stop() reports false; FireB: its value reaches the channel) included *)
+Definition C11_timeout_not_early_full : Prop :=
+  forall evs e, let s := run evs init in
+    res (step s e) = Some RErrTimeout -> res s <> Some RErrTimeout ->
+    exists d, dl s = Some d /\ d <= now s.
+
+(* TRUE of the repaired code (fix: readMore uses a timer of its own for every wait).  While it re-armed one
+   shared timer the statement was refuted by the two-step expiry (a value that had expired but not yet reached
+   the channel survived Stop + drain and made the NEXT Read time out at once) and reproduced on the real code;
+   the refuting history is the regression Example below, the scenario deadline-race of the harness keeps its
+   signature C11:stale-timer-tick-makes-next-read-time-out-early. *)
+Theorem C11_timeout_not_early : C11_timeout_not_early_full.
 Proof. exact timeout_not_early. Qed.
 Print Assumptions C11_timeout_not_early.
 
-(* the timer channel holds a value only at/after the deadline armed by the current call: no stale
-   value from an earlier call survives (deferred Stop + drain) *)
+Example C11_regression_stale_tick :
+  let s := run witness_stale_tick init in
+  rd s = RParked /\ use_t s = true /\ tch s = false /\ step s (RWake BTimer) = s.
+Proof. exact stale_tick_regression. Qed.
+
+(* the timer value a parked call can see is in ITS channel only at/after the deadline this call armed *)
 Theorem C11_timer_sound : forall evs, let s := run evs init in
-  tch s = true -> use_t s = true /\ armed s <= now s /\ dl s = Some (armed s).
+  rd_pre (rd s) = false -> use_t s = true -> tch s = true -> armed s <= now s /\ dl s = Some (armed s).
 Proof. exact timer_sound. Qed.
 Print Assumptions C11_timer_sound.
 
